@@ -454,7 +454,17 @@ pub mod details {
                 }
             };
 
-            storage.get().reserve_port(port_to_register.value(), msg)?;
+            if let Err(e) = storage.get().reserve_port(port_to_register.value(), msg) {
+                // The creator still owns the freshly created storage here. Dropping it with
+                // ownership would remove the connection by name although the peer that
+                // caused the failure (it holds a role bit or marked the connection for
+                // destruction) is responsible for removing it - and the name may already
+                // refer to a newer connection.
+                if storage.has_ownership() {
+                    storage.release_ownership();
+                }
+                return Err(e);
+            }
 
             if storage.has_ownership() {
                 storage.release_ownership();
